@@ -187,6 +187,10 @@ def cases_fix(tier):
                     yield "N%d/%s/%s/%s" % (N, "".join(map(str, ptypes)), "transform" if tr else "plain", "scalar-mag" if bcast else "vector-mag"), {
                         "N": N, "ptypes": list(ptypes), "transform": tr, "bcast": bcast, "infinite": False}
     yield "N1/relative/infinite-bound", {"N": 1, "ptypes": [RELATIVE], "transform": False, "bcast": False, "infinite": True}
+    # the built-in VariableScaler as the variable transform (its magnitudes_to_optimizer must hand back a new array: the relative
+    # entries of the array passed in are kept by fix_perturbations)
+    for ptypes in ([ABSOLUTE, RELATIVE], [RELATIVE, ABSOLUTE], [RELATIVE, RELATIVE]):
+        yield "N2/%s/transform/built-in-variable-scaler" % "".join(map(str, ptypes)), {"N": 2, "ptypes": ptypes, "transform": True, "bcast": False, "infinite": False, "real_scaler": True}
     # a relative perturbation on a *fixed* variable with an infinite bound: must be rejected as well (or yield a finite magnitude),
     # otherwise 0 * inf puts NaN into the fixed column of every perturbed vector (C09)
     for ptypes in ([ABSOLUTE, RELATIVE], [RELATIVE, RELATIVE]):
@@ -212,6 +216,13 @@ def scn_fix(T, case):
     bad = any(f and t == RELATIVE for f, t in zip(inf, case["ptypes"]))
     k = T.real("k", (N,), lo=0.001) if case["transform"] else None
     transforms = types.SimpleNamespace(variables=_Scale(k)) if case["transform"] else None
+    if case.get("real_scaler"):
+        from contracts import C11
+
+        C11._shadow(T, [C11.MV])
+        scales = T.const(np.array([2.0, 0.5, 4.0][:N]))
+        transforms = types.SimpleNamespace(variables=C11._scaler(T, scales, None))
+        k = 1.0 / np.asarray(scales, dtype=float)  # magnitudes are divided by the scales
     try:
         f(me, variables, transforms)
     except ValueError:
@@ -233,10 +244,24 @@ def scn_fix(T, case):
 # the proof per element at shape (1,) is a proof for every shape iff only element-wise operations occur (checked by the driver on every run)
 ALL_SHAPES_BY_ELEMENTWISE = ("apply_bounds",)
 
+# ------------------------------------------------------------------------------------ what the plan steps hand on (shared contract)
+def cases_steps(tier):
+    from contracts import stepcontract
+
+    return stepcontract.cases(tier)
+
+
+def scn_steps(T, case):
+    from contracts import stepcontract
+
+    stepcontract.scenario(T, case, "C10")
+
+
 SCENARIOS = [
     Scenario("apply_bounds", scn_apply_bounds, cases_apply_bounds, {"quick": 30, "thorough": 400}),
     Scenario("perturb_variables", scn_perturb, cases_perturb, {"quick": 10, "thorough": 100}),
     Scenario("fix_perturbations", scn_fix, cases_fix, {"quick": 10, "thorough": 100}),
+    Scenario("plan_steps_hand_over", scn_steps, cases_steps, {"quick": 1, "thorough": 2}),
 ]
 
 MANIFEST = {
